@@ -494,6 +494,8 @@ def _size(case):
 
 
 def run(ctx: Ctx):
+    from vf.prove import prove
+    prove(ctx, ["specs.cutting"], "C09")  # deductive part (specs/cutting.py)
     use_repo()
     import solvor.flow  # noqa: imported before forking so that the pool workers inherit it
     import solvor.network_simplex  # noqa
